@@ -26,16 +26,15 @@ class C02(DiffProperty):
     level_text = ("proof (partial): Coq theorems C02_wire_splits_into_frames and C02_stream_integrity_flat: for all message sequences, all splits into pushes and "
                   "all capacity schedules the wire splits at its delimiters into one frame per message in order, and the decoder loop delivers exactly message i "
                   "from frame i given the scratch gap (with C03_segmentation_independent: for any cutting of the wire). Ring level, writer: "
-                  "C02_queue_push_refines_partial (one mpt_queue_push on a wrapped ring in any state keeps the stream-level encoder invariant: windows, second push, "
-                  "align-and-retry), C02_ring_writer_invariant_partial and C02_ring_writer_stream_partial (every history of pushes, terminations and transport steps "
-                  "on a ring of any capacity/offset: transport bytes + ring contents = the frames of the completed messages, each delivered by the decoder loop). "
-                  "Ring level, reader (queue_recv recovery, queue_shift) and the out-of-band branch of queue_push: executable mechanism model compared with the "
-                  "implementation after every operation, decided against the specification 'received = sent' on rings of many capacities/offsets with arbitrary "
-                  "wire cuts incl. single-byte delivery")
-    level_note = ("partial: (1) the writer-side ring theorems exclude the out-of-band branch of mpt_queue_push (open block straddling the storage end, copied through "
-                  "a stack buffer) by the guard no_oob; (2) the reader-side ring code (mpt_queue_recv, mpt_queue_shift, mpt_message_get) has an executable mechanism "
-                  "model compared with the implementation after every operation (ring offsets/lengths, decoder state, contents) but its refinement to the flat "
-                  "decoder is not a theorem; (3) mptio stream glue (sockets, poll) is not executed. Theorems closed under the global context.")
+                  "C02_queue_push_refines (one mpt_queue_push on a wrapped ring in any state keeps the stream-level encoder invariant, every branch: aligned, upper "
+                  "part, lower part, out-of-band copy of a straddling block, second push, align-and-retry), C02_ring_writer_invariant, C02_ring_writer_total (no "
+                  "history of pushes/terminations/transport steps faults) and C02_ring_writer_stream (on a ring of any capacity/offset: transport bytes + ring "
+                  "contents = the frames of the completed messages, each delivered by the decoder loop). Ring level, reader (queue_recv recovery, queue_shift): "
+                  "executable mechanism model compared with the implementation after every operation, decided against the specification 'received = sent' on "
+                  "rings of many capacities/offsets with arbitrary wire cuts incl. single-byte delivery")
+    level_note = ("partial: the reader-side ring code (mpt_queue_recv, mpt_queue_shift, mpt_message_get) has an executable mechanism model compared with the "
+                  "implementation after every operation (ring offsets/lengths, decoder state, contents) but its refinement to the flat decoder is not a theorem "
+                  "(the writer-side ring code is proved for all branches); mptio stream glue (sockets, poll) is not executed. Theorems closed under the global context.")
     technique = "Coq theorems: composition encoder o wire o decoder (flat level) and ring-level writer refinement (history invariant); specification-level differential check of the ring-level mechanism model"
     coq_dir = "Cobs"
     coq_deps = ("C13",)
